@@ -241,6 +241,10 @@ def generate(tier, seed):
                  "m = r.sub == p.sub && \\\r\n r.obj == p.obj\r\n", "m = r.sub \\ == p.sub\n", "m \\\n = r.sub == p.sub\n"]:
         cases.append("ini " + enc(pre + tail))
         cases.append("mdl " + enc(pre + tail))
+    # to_text on a model in which one token's text is part of another's (known finding D29)
+    for body in ["[request_definition]\nr = a\n[policy_definition]\np = r_a\n[policy_effect]\ne = some(where (p.eft == allow))\n[matchers]\nm = r.a == p.r_a\n",
+                 "[request_definition]\nr = sub, p_x\n[policy_definition]\np = x, sub\n[policy_effect]\ne = some(where (p.eft == allow))\n[matchers]\nm = r.sub == p.sub && r.p_x == p.x\n"]:
+        cases.append("tt " + enc(body))
     for t in ["r.sub == p.sub", "pr.x r.y p2.z r22.q.w", "xr.sub", "r. p.", "(r.a)", "\"r.sub\"", "é r.x", "r_sub.p.x", "eval(p.rule)"]:
         cases.append("esc " + enc(t))
     for t in ["a # b", "#", "a#", "  x  # y # z", "no comment  ", ""]:
